@@ -42,7 +42,8 @@ IMP = "LV.Base LV.VV LV.VVFacts LV.Path LV.PathSpec LV.Prog LV.Objects LV.Exec L
 
 TABLE = {
  "C05": ("Deadlocks are reported exactly. Full statement: Definition C05_statement (not proved: needs DPOR completeness); refuted on this tree by the listed findings.", [
-    ("C05_refuted_D5_unpark_of_joiner_panics", "D5_internal_panic", "D5: unparking a thread blocked in join trips loom's own assertion although R says the program just finishes"),
+    ("C05_D5_repaired_unpark_of_joiner", "D5_repaired", "D5 (repaired): unparking a thread blocked in join no longer wakes it; the program finishes as R says (computed witness)"),
+    ("C05_D11_repaired_token_survives_blocking", "D11_repaired", "D11 (repaired): a park token delivered before the thread blocks on a mutex is still there when it parks"),
     ("C05_refuted_D14_deadlock_missed", "D14_deadlock_missed", "D14: a deadlock that needs two unparks to coalesce before the first park is never reached"),
     ("C05_first_failure_is_result", "first_failure_is_result", "the first iteration that fails (e.g. with a deadlock) is the result of the run, and all iterations before it finished"),
     ("C05_try_lock_never_blocks", "post_acquire_fails_iff", "a try_lock observes the lock state at its own step: it fails iff the lock is held then (it does not wait)"),
@@ -64,7 +65,8 @@ TABLE = {
     ("C08_notify_publishes", "notify_post_publishes", "notify sets the flag and publishes the notifier's clock"),
     ("C08_notify_handover", "notify_handover", "the notifier's prior writes happen-before the woken thread's continuation"),
     ("C08_unpark_transfers", "threads_unpark_transfers", "unpark joins the unparker's clock into the target and leaves every other thread alone"),
-    ("C08_refuted_D5", "D5_internal_panic", "D5: unpark of a thread blocked in join wakes it"),
+    ("C08_D5_repaired", "D5_repaired", "D5 (repaired): unpark of a thread blocked in join stores a token instead of waking it"),
+    ("C08_D11_repaired", "D11_repaired", "D11 (repaired): the park token is not lost when the thread blocks on / is woken by a lock"),
     ("C08_refuted_D14", "D14_deadlock_missed", "D14: park/unpark are not scheduling points"),
  ]),
  "C09": ("mpsc channels: count, FIFO views, ordering (local lemmas).", [
